@@ -62,7 +62,8 @@ def worker_main(pid: str, tier: str, seed: int, shard: int, nshards: int, out_pa
     try:
         from . import reach as reach_mod
 
-        reach = reach_mod.Reach(getattr(prop, "ANCHORS", None)) if not os.environ.get("NOREACH") else None
+        anchors = None if os.environ.get("REACH_ALL") else getattr(prop, "ANCHORS", None)
+        reach = reach_mod.Reach(anchors) if not os.environ.get("NOREACH") else None
         reach.start()
     except Exception:  # noqa: BLE001 - reach evidence is optional
         reach = None
@@ -268,6 +269,11 @@ def run_check(pid: str, tier: str, seed: int, workers: int = 0) -> int:
     wall = time.time() - t0
     distinct = count_distinct(merged["sigfiles"]) + merged.get("extra_distinct", 0)
     reach_out = {fn: {"reached": len(info["lines"]), "total": info["total"]} for fn, info in sorted(merged["reach"].items())}
+    if os.environ.get("REACH_DUMP"):
+        # diagnostic only (tools/unreached.py): the full line sets, to find code no workload reaches
+        os.makedirs(os.environ["REACH_DUMP"], exist_ok=True)
+        with open(os.path.join(os.environ["REACH_DUMP"], f"{pid}.{tier}.json"), "w") as fh:
+            json.dump({fn: sorted(info["lines"]) for fn, info in merged["reach"].items()}, fh)
     coverage = {
         "evaluations": merged["evaluations"],
         "distinct_nontrivial": distinct,
